@@ -100,12 +100,35 @@ def check_requirement(F, f, block, req):
        between:<A>:<B>:<C>           every path from a call to A to a call to C passes through a call to B
        infn:<function>|<requirement> the requirement holds in another function (cross-function invariants)
        adjacent:<A>|<B>              after every call to A the next call to a method of the same type is B (nothing runs in between)
+       armpass:<E>::<V>|<callee>|<gate>  every path from the <V> arm to the next loop iteration calls callee (or the gate was off)
        argfrom:<n>|<callee,alts>     argument n of the site's call is (computed from) the result of one of the callees
        paired:<A>|<B>|<const>        every call to A is dominated by a call to B that carries the constant <const>
                                      and acts on the same parameter as A's receiver (A must occur)"""
     from cfgq import calls_to, call_result_edges, must_pass
     parts = req.split(":")
     kind = parts[0]
+    if kind == "armpass":
+        # armpass:<Enum>::<Variant>|<callee>|<gate callee>: in the loop that dispatches on the enum, every path from the entry of the
+        # <Variant> arm to the next iteration (the loop's `next()` call) or to a return passes through a call to <callee>, or leaves
+        # through the flag-NOT-set outcome of a <gate callee> test (the construct that <callee> consumes only exists under the gate)
+        from cfgq import variant_arm_blocks
+        spec, callee, gate = req[len("armpass:"):].split("|")
+        enum, variant = spec.rsplit("::", 1)
+        starts = [tgt for _, tgt in variant_arm_blocks(f, enum, variant)]
+        if not starts:
+            return False, f"anchor-missing: no `{spec}` arm in {f.key}"
+        K = {b for b, _ in calls_to(f, callee)}
+        if not K:
+            return False, f"anchor-missing: no call to `{callee}` in {f.key}"
+        gate_false = [e for b, _ in calls_to(f, gate) for e in call_result_edges(f, b)[1]]
+        heads = {b for b, t in f.calls() if (callee_key(t) or "").endswith(("Iterator>::next", "Iterator::next"))} | set(f.returns())
+        for s_ in starts:
+            r = f.reach_from(s_, removed_edges=gate_false, removed_nodes=K)
+            bad = sorted(x for x in r if x in heads and x != s_)
+            if bad:
+                return False, (f"after the `{variant}` arm (entered at {f.where(s_)}) the loop can go on to {f.where(bad[0])} without calling `{callee}` "
+                               f"although the `{gate}` test did not fail")
+        return True, ""
     if kind == "argfrom":
         n, alts = req[len("argfrom:"):].split("|", 1)
         t = f.blocks[block]["term"]
